@@ -37,6 +37,9 @@ Definition cnt (j : nat) (l : list nat) : nat := length (filter (Nat.eqb j) l).
 Lemma cnt_app j a b : cnt j (a ++ b) = (cnt j a + cnt j b)%nat.
 Proof. unfold cnt. rewrite filter_app, app_length. reflexivity. Qed.
 
+Lemma cnt_cons_eq j l : cnt j (j :: l) = S (cnt j l).
+Proof. unfold cnt. simpl. rewrite Nat.eqb_refl. reflexivity. Qed.
+
 Lemma cnt_perm j a b : Permutation a b -> cnt j a = cnt j b.
 Proof.
   unfold cnt. intros H. induction H as [|x l l' _ IH|x y l|l l' l'' _ IH1 _ IH2]; simpl.
@@ -200,7 +203,7 @@ Section Iff.
     assert (Hc1 : cnt j0 (nth m P []) = length K).
     { rewrite (cnt_perm _ _ _ Hperm). unfold project. rewrite cnt_map. reflexivity. }
     assert (Hc2 : cnt j0 (nth m P []) = (length R + S (cnt j0 rn))%nat).
-    { rewrite Hr, cnt_app, cnt_map. unfold cnt at 2. simpl. rewrite Nat.eqb_refl. reflexivity. }
+    { rewrite Hr, cnt_app, cnt_map, cnt_cons_eq. reflexivity. }
     lia.
   Qed.
 
